@@ -542,6 +542,55 @@ def rule_benchmarks(F, R, fns):
     return n_ok
 
 
+def rule_decision(F, R):
+    """R-C06-7: the 0-1 errors are the arg-max / sign decision rule. The kernels only compare values, so the finite set of orderings and
+    sign patterns of a 3-label (and the binary) instance is enumerated and the kernel interpreted on each"""
+    import itertools
+    seen = set()
+    n_ok = 0
+    for f in sorted(F.functions.values(), key=lambda f: f.key):
+        if f.name != "error" or f.relfile != "include/nano/loss/error.h" or f.cls not in ("nano::loss::detail::sclass_t", "nano::loss::detail::mclass_t"):
+            continue
+        if f.cls in seen:
+            continue
+        seen.add(f.cls)
+        kind = f.cls.split("::")[-1]
+        cases = []
+        perms = list(itertools.permutations([sp.Rational(-2), sp.Rational(1, 2), sp.Rational(3)]))
+        signs3 = list(itertools.product([sp.Integer(-1), sp.Integer(1)], repeat=3))
+        if kind == "sclass_t":
+            for o in perms + [(sp.Rational(-3), sp.Rational(-2), sp.Rational(-1)), (sp.Rational(-1), sp.Rational(-3), sp.Rational(-2))]:
+                for t in signs3:
+                    k = list(o).index(max(o))
+                    cases.append((list(t), list(o), 0 if t[k] > 0 else 1))
+            for t in (-1, 1):
+                for o in (sp.Rational(-2), sp.Rational(2)):
+                    cases.append(([sp.Integer(t)], [o], 0 if t * o > 0 else 1))
+        else:
+            for o in itertools.product([sp.Rational(-2), sp.Rational(2)], repeat=3):
+                for t in signs3:
+                    cases.append((list(t), list(o), sum(1 for a_, b_ in zip(t, o) if a_ * b_ <= 0)))
+        bad = None
+        try:
+            for t, o, want in cases:
+                it = Interp(F, f, n=len(t))
+                it.concrete_eps = True
+                it.env[f.params[0]["d"]] = list(t)
+                it.env[f.params[1]["d"]] = list(o)
+                got = it.run()
+                if got is None or sp.simplify(sp.sympify(got) - want) != 0:
+                    bad = "targets %s, outputs %s: error %s, the decision rule gives %s" % (t, o, got, want)
+                    break
+        except OutOfFragment as e:
+            R.incomplete("R-C06-7", kind, f.loc(), "cannot evaluate: %s" % e)
+            continue
+        n_ok += 1
+        rule = "error = 0 iff the label with the highest output is a positive label (binary: iff target*output > 0)" if kind == "sclass_t" else "error = number of labels whose output sign disagrees with the target"
+        R.check(bad is None, "R-C06-7", kind + " decision rule", f.loc(), rule + " on all %d ordering / sign patterns" % len(cases),
+                "the 0-1 error is not the arg-max / sign decision rule: " + (bad or ""))
+    R.floor("R-C06-7", n_ok, 2, "classification error kernels")
+
+
 def run(ctx):
     R = ctx.report
     bench = ["src/function/benchmark/sphere.cpp", "src/function/benchmark/chained_cb3I.cpp", "src/function/benchmark/chained_cb3II.cpp",
@@ -560,5 +609,6 @@ def run(ctx):
     rule_noninterference(F, R, fns)
     c05.rule_constraint_gradients(F, R)
     rule_strong_convexity(F, R, fns)
+    rule_decision(F, R)
     nb = rule_benchmarks(F, R, fns)
     R.floor("R-C06-2/benchmarks", nb, 6, "benchmark functions inside the fragment")
